@@ -38,9 +38,13 @@ def build(params):
     r = stream(s, 'config')
     if params['i'] % 5 == 4:
         sc = scen.corpus_scenario(r, idx=params['i'] // 5)
+    elif r.random() < 0.3:
+        # planted cause, no handler: the reported category must match it
+        sc = scen.generated_scenario(s, plant=True, onerror=False, onerror_mode=None,
+                                     size=r.choice((6, 10)), goto=False)
     else:
         sc = scen.generated_scenario(s)
-    opt, dbg = scen.pick_config(r)
+    opt, dbg = scen.pick_config(r, need_dbg=True if sc['meta'].get('plant') and r.random() < 0.8 else None)
     return {'property': PROP, 'run_seed': s, 'source': sc['source'],
             'config': {'opt': opt, 'dbg': dbg,
                        'signal_mode': r.choice(('call', 'raise')),
